@@ -32,6 +32,12 @@ Definition wrapper_signed (m : msgfmt) (data : bytes) : res invocation :=
 
 Definition wrapper_unsigned (m : msgfmt) (data : bytes) : res (list val) := unpack_all key_ok m data 23.
 
+(* EZPackOverlay._ez_unpack_auth(payload_class, data), used by handlers that parse authenticated messages by hand
+   (DiscoveryCommunity.on_old_introduction_request): the same steps with the format list
+   [GlobalTimeDistributionPayload; payload_class] *)
+Definition ez_unpack_auth (payload : msgfmt) (data : bytes) : res invocation :=
+  wrapper_signed (MCons (FStruct [PU 8]) payload) data.
+
 (* sender: ezr_pack(msg_num, *payloads, sig=True) with prefix of 22 bytes *)
 Variable sign : bytes -> bytes -> bytes.                (* secret key, message *)
 Definition ez_pack (sk pk prefix : bytes) (msg_id : Z) (m : msgfmt) (vs : list val) : res bytes :=
